@@ -247,6 +247,21 @@ def attribute_family(rng, full):
     return progs
 
 
+def buffered_block_family():
+    """an anonymous / filtered <%block buffered="True">: its content belongs at the place of the block."""
+    progs = []
+    for flags in (["buffered"], ["buffered", "filter"]):
+        blk = dict(flags=set(flags), fm=0, dec=False, dm=0, blk=True, params=[], bsig=[], nested=[], home=0,
+                   body=[dict(k="text", t="t1"), dict(k="mark", m=2, rl=False, w="s"), dict(k="text", t="t3")])
+        progs.append(dict(defs={"b9": blk}, incs=[], eh=False, fe=False, top=[], el="on",
+                          body=[dict(k="text", t="t4"), dict(k="block", d="b9"), dict(k="text", t="t5")]))
+    return progs
+
+
+def sig_buffered_block(p, x):
+    return "buffered-block-drops-output:%s" % x["clause"]
+
+
 def check(run):
     thorough = run.thorough
     maxraise = 10 if not thorough else 14
@@ -265,7 +280,8 @@ def check(run):
     run.extra["attribute_programs"] = len(attrs)
     # ---- 2. seeded random programs; nesting to depth 4
     n_rand = 260 if not thorough else 3000
-    prof = rc.profile(w=dict(expr=6, callc=5, block=2, **{"while": 1, "with": 1}), depth=3, p_calldefs=0.4)
+    prof = rc.profile(w=dict(expr=6, callc=5, block=2, **{"while": 1, "with": 1}), depth=3, p_calldefs=0.4,
+                      routes=["context", "context", "unicode", "render"])
     deep = rc.profile(w=dict(expr=6, callc=7, block=1, text=2, mark=3, **{"if": 1, "for": 1, "while": 0, "with": 0, "try": 1}),
                       depth=4, suite=(1, 2), ndefs=(2, 3), max_cost=450)
     g = rc.Gen(run.rng, prof)
@@ -281,6 +297,7 @@ def check(run):
     g = rc.Gen(run.rng, f21)
     progs = [g.gen_prog() for _ in range(40 if not thorough else 300)]
     rc.check_batch(run, progs, 4, "early-return", coverage=False)
+    rc.check_batch(run, buffered_block_family(), 2, "buffered-block", signature_of=sig_buffered_block)
     acts = run.extra.get("action_coverage", {})
     for a in NEED:
         if not acts.get(a):
